@@ -9,18 +9,19 @@ LEVEL_NOTE = ("Trusted: Lean 4.33 kernel; axioms propext/Classical.choice/Quot.s
               "(real code vs model driver vs independent Python oracle) and by constants translated from the "
               "source (Props/Tie.lean). ")
 
-CLAIMED = {
-    'C19': dict(
-        text="Lean theorems (Props/C19.lean) prove for ALL op sequences, keys < 2^64 and values < 2^48 that the "
-             "model of fsIndex (two-level sorted association lists, minKey/maxKey exactly as coded) refines a "
-             "sorted dictionary: get/set/del/contains/len/keys/items/values/minKey/maxKey(with and without key), "
-             "errors included, plus save/load round trip at bucket-string byte level. The model is tied to the "
-             "code by differential execution of op sequences on ZODB.fsIndex.fsIndex.",
-        note="BTrees OOBTree/fsBucket idealised as sorted maps; pickle framing of save/load is runtime "
-             "(real save/load executed and compared).",
-        technique="Lean 4 refinement proof (sorted-dictionary spec) + differential correspondence",
-        design="4 C19"),
-}
+def load_claimed():
+    """one JSON fragment per claimed property in harness/registry.d/Cxx.json with keys
+    text, note, technique, design (and optionally category, default "proof")"""
+    d = os.path.join(VERIF, 'harness', 'registry.d')
+    out = {}
+    for f in sorted(os.listdir(d)):
+        if f.endswith('.json'):
+            with open(os.path.join(d, f)) as fh:
+                out[f[:-5]] = json.load(fh)
+    return out
+
+
+CLAIMED = load_claimed()
 
 NOT_APPLICABLE = {}
 
